@@ -55,6 +55,7 @@ var errBrokenSwitchboard = errors.New("the switchboard is broken")
 
 func (sb *switchboard) addConn(conn net.Conn) {
 	connId := atomic.AddUint32(&sb.connsCount, 1) - 1
+	common.VerifPoint("addConn.betweenCountAndStore")
 	sb.conns.Store(connId, conn)
 	go sb.deplex(conn)
 }
